@@ -1142,13 +1142,17 @@ def validateVariablesOp (S : Schema) (D : Document) (fuel : Nat) (kind : Option 
   | some acc =>
     (variableDefErrors S [] vars ++ acc.errs ++ unusedVariableErrors acc.encountered vars, false)
 
+/-- The loop over the definitions (validate_variables.go:17-85). -/
+def validateVariablesDefs (S : Schema) (D : Document) (fuel : Nat) : List Definition → List Err × Bool
+  | [] => ([], false)
+  | .op kind _ vars dirs sel :: rest =>
+    let (e, fo) := validateVariablesOp S D fuel kind vars dirs sel
+    let (r, fo') := validateVariablesDefs S D fuel rest
+    (e ++ r, fo || fo')
+  | .frag .. :: rest => validateVariablesDefs S D fuel rest
+
 def validateVariables (S : Schema) (D : Document) (fuel : Nat) : List Err × Bool :=
-  D.foldl (fun (st : List Err × Bool) d =>
-    match d with
-    | .op kind _ vars dirs sel =>
-      let (e, fo) := validateVariablesOp S D fuel kind vars dirs sel
-      (st.1 ++ e, st.2 || fo)
-    | .frag .. => st) ([], false)
+  validateVariablesDefs S D fuel D
 
 /-! ## validator.go:67-92 — the pipeline and the primary/secondary filter -/
 
